@@ -148,6 +148,8 @@ func (ctx *Ctx) genFunc(fn *ssa.Function, ct *Contract, houdini map[int][]*Claus
 	// cover: the preconditions are satisfiable
 	vc.Covers = append(vc.Covers, &Obligation{Name: vc.Key + "#cover[pre]", Kind: "cover", Fn: vc.Key, Cond: boolLit(true), Goal: boolLit(false), PreludeLen: len(g.lines)})
 	f.run(st)
+	vc.Covers = append(vc.Covers, g.pendingReach...)
+	g.pendingReach = nil
 	if len(f.rets) == 0 {
 		g.note("no reachable return")
 	}
